@@ -64,6 +64,10 @@ func checkC24(c srvCase) (o vstat.Outcome) {
 	t := newTrace()
 	defer func() {
 		o.Classes = append(o.Classes, classList(t.classes)...)
+		if t.regTimeout {
+			// a call did not register with the relay within the bound: call order is undefined, nothing is asserted
+			o.V, o.Discard = nil, true
+		}
 		t.teardown()
 	}()
 	closedOnce := map[int]bool{}
@@ -155,6 +159,10 @@ func checkC25(c c25Case) (o vstat.Outcome) {
 	t := newTrace()
 	defer func() {
 		o.Classes = append(o.Classes, classList(t.classes)...)
+		if t.regTimeout {
+			// a call did not register with the relay within the bound: call order is undefined, nothing is asserted
+			o.V, o.Discard = nil, true
+		}
 		o.NonTrivial = t.classes["usurp-session"] || t.classes["usurp-listen"] || c.Concurrent
 	}()
 	if !c.Concurrent {
@@ -190,10 +198,14 @@ func checkC25(c c25Case) (o vstat.Outcome) {
 							t.classes["usurp-session"] = true
 						}
 						mu.Unlock()
+						prev := liveS[op.Q]
 						liveS[op.Q] = s
-						s.start(t.srv, true)
 						// registration order matters for "the survivor is the newest": wait until this call is registered
-						time.Sleep(2 * time.Millisecond)
+						if !s.startRegistered(t.srv, prev) {
+							mu.Lock()
+							t.regTimeout = true
+							mu.Unlock()
+						}
 					case "detach":
 						if s := liveS[op.Q]; s != nil {
 							s.stop()
@@ -209,8 +221,11 @@ func checkC25(c c25Case) (o vstat.Outcome) {
 						}
 						mu.Unlock()
 						liveL = l
-						l.start(t.srv)
-						time.Sleep(2 * time.Millisecond)
+						if !l.startRegistered(t.srv) {
+							mu.Lock()
+							t.regTimeout = true
+							mu.Unlock()
+						}
 					case "unlisten":
 						if liveL != nil {
 							liveL.stop()
